@@ -34,6 +34,9 @@ type World struct {
 	oblOnPath  int
 	panicOK    bool
 	blockOK    bool
+	nondetSelect bool
+	onSelect   Value
+	inOnSelect bool
 	// coroutines
 	mode       int
 	subFaults  int
@@ -53,6 +56,9 @@ type World struct {
 	ginParams  map[string]*Term
 	ignoreGo   bool
 	ginBound   []ginBound
+	httpBuilt  *httpSent
+	httpSent   []*httpSent
+	httpHeaders [][2]*Term
 	ginSent    map[string]*Term
 	schedFull  int
 	goSkipped  int
